@@ -298,12 +298,14 @@ class LoadedMessageInterface(Protocol):
         ...
 
     @abstractmethod
-    def contains(self, value: bytes) -> bool:
+    def contains(self, value: bytes, header: bool = True) -> bool:
         """Check the body of the message for a sub-string. This may be
         optimized to only search headers and ``text/*`` MIME parts.
 
         Args:
             value: The sub-string to find.
+            header: Also check the message header, as the ``TEXT`` search key
+                does. The ``BODY`` search key does not.
 
         """
         ...
